@@ -6,10 +6,11 @@ PROP = 'C06'
 LEVEL = 'exploration'
 BUDGET = {'quick': 25, 'thorough': 300}
 FLOOR = {'quick': 50000, 'thorough': 1000000}
-WORKERS = 4          # every worker drives one process with up to 16 compiling threads
+WORKERS = 6          # every worker drives processes with up to 16 compiling threads
 RULE = ('histories of concurrent compilations inside one process: T in 2..16 threads behind a start barrier, each compiling 4..20 '
         'stylesheets that call unique-id() 25..250 times (string.unique-id and the global name, in declarations and interpolated into '
-        'class selectors), with the yield-point hook perturbing the schedule with probability 0..50 % at the counter.  All identifiers '
+        'class selectors), with the yield-point hook perturbing the schedule with probability 0..50 % at the counter; 60 % of the histories are '
+        'cold starts: a fresh process whose first compilations call unique-id() on 8..16 threads at once.  All identifiers '
         'returned in one process (all histories of that process, until it is restarted) are collected.  random(): 300 draws per limit for '
         'limits 1, 2, 3, 10, 2^31-1, 2^31, 2^31+1, 2^53-1 and random limits, and random() without a limit, in single- and multi-threaded '
         'histories.  Distinct non-trivial cases = distinct identifiers returned by calls that ran while at least one other thread was '
@@ -91,6 +92,20 @@ def check_random(ctx, out, lims, case):
 
 
 def check_case(ctx, case):
+    if case.get('cold'):
+        # the race window only exists in a fresh process: replay the cold start a number of times
+        from .lib.driver import Driver
+        saved = ctx.driver
+        for _ in range(300):
+            ctx.driver = Driver(ctx.driver_bin)
+            try:
+                run_history(ctx, case, {})
+            finally:
+                ctx.driver.close()
+            if ctx.violations:
+                break
+        ctx.driver = saved
+        return
     run_history(ctx, case, {})
 
 
@@ -155,6 +170,24 @@ def run_history(ctx, case, state):
                 return
 
 
+def cold_start(ctx, n):
+    """A history in a FRESH process whose very first compilations call unique-id() on 16 threads at once (the counter's
+    initialisation races with its first uses only there)."""
+    from .lib.driver import Driver
+    r = ctx.rng
+    T = r.choice([8, 16, 16])
+    threads = [[(id_sheet(r, r.choice([2, 8, 25])), 'compressed') for _ in range(r.choice([1, 1, 3]))] for _ in range(T)]
+    case = {'n': n, 'threads': threads, 'yield_p': r.choice([0, 0, 6553, 32768]), 'seed': r.getrandbits(32), 'lims': None, 'cold': True}
+    saved = ctx.driver
+    ctx.driver = Driver(ctx.driver_bin)
+    try:
+        run_history(ctx, case, {})
+    finally:
+        ctx.driver.close()
+        ctx.driver = saved
+    ctx.stat('cold_start_histories')
+
+
 def worker(ctx):
     state = {}
     n = 0
@@ -162,6 +195,9 @@ def worker(ctx):
     while not ctx.expired():
         r = ctx.rng
         n += 1
+        if r.random() < 0.6:
+            cold_start(ctx, n)
+            continue
         T = r.choice([2, 3, 4, 8, 8, 16, 16])
         threads = []
         for t in range(T):
